@@ -1,6 +1,6 @@
 PROPERTY = "C18"
 LEVEL = "proof"
-LEAN_MODULES = ["CifModel.Props.C18", "CifModel.Props.C18Text"]
+LEAN_MODULES = ["CifModel.Props.C18", "CifModel.Props.C18Text", "CifModel.Props.ReviewC18"]
 REQUIRED = ["CifModel.C18_stats_exact", "CifModel.C18_maxRun_spec", "CifModel.C18_delim_permitted", "CifModel.C18_delim_admissible",
             "CifModel.C18_prefers_simple", "CifModel.C18_reserved_iff", "CifModel.C18_set_unquoted_iff", "CifModel.C18_try_quoted",
             "CifModel.C18_delim_lexically_admissible", "CifModel.C18_delim_reads_back", "CifModel.C18_delim_reads_back_text"]
